@@ -16,16 +16,21 @@ RULE = ('quoting: every string over {a, space, tab, double quote, backslash} up 
         'backslash; distinct by exact text. split vs the C runtime rules on arbitrary lines: every line over the same alphabet up to length 6 (quick) / 8 '
         '(thorough), realistic flag lines, list2cmdline output damaged at one place, random lines of 7-40 characters weighted '
         'towards quotes and backslash runs; distinct by exact text. GUID map: histories of up to 12 runs over a pool of project names (add, keep, '
-        'remove, re-add, duplicate names, missing / skipped dependencies, default selection, pre-existing and too-new '
+        'remove, re-add, duplicate names, missing / skipped dependencies, 0..3 explicit defaults (repeated, without a project, depended upon by other steps) and the '
+        'implicit ones given to the real post-rules hook msbuild_default, pre-existing and too-new '
         '.bfg_uuid files) driven through the real UuidMap/Solution/Project classes with real files; non-trivial = '
-        'history with at least one removal or re-add.')
+        'history with at least one removal or re-add. Writer histories (real msbuild.writer.write) and system histories (real '
+        'build scripts of command / alias steps with dependencies, configured with --backend=msbuild and regenerated after '
+        'edits): the number of explicit defaults of a run is dealt out in turn over 0..3, given to one default() call or to '
+        'one call each; a case = one run, distinct by its script.')
 TRUSTED = ('R model Shell/Msvcrt.v of the documented Microsoft C runtime argv rules (no Windows here): cross-checked each run '
            'against CPython subprocess.list2cmdline (independent writer for the same rules) and against a line-by-line Python '
            'transliteration of the CRT parse_cmdline loop (harness/c20.py crt_parse) in the three double-double-quote variants',
            'cmd.exe: only the documented /s /c outer-quote stripping is modelled; its metacharacter processing is excluded by the property',
            'uuid.uuid4 is modelled as a fresh-id oracle (injective, disjoint from stored ids); JSON and UUID hex round trips are '
            'exercised through real files but not modelled',
-           'MSBuild itself (reading the .sln) is not available; the .sln text is parsed back by the harness')
+           'MSBuild itself (reading the .sln) is not available; the .sln text is parsed back by the harness; for the real '
+           'configure with --backend=msbuild the variable MSBUILD names harness/stubs_msbuild/msbuild, which only answers /version')
 EXPLANATION = ''
 
 ALPHA = ['a', ' ', '\t', '"', '\\']
@@ -539,8 +544,20 @@ def gen_history(rng, rep):
             if rng.random() < 0.03:
                 deps.append('out/ghost'); flags.add('unknown-dep')
             specs.append((key, pname, deps))
-        default = rng.choice([None, None] + [k for k, _, _ in specs] + ['out/ghost'])
-        runs.append((specs, default))
+        # builtins/default.py: the explicit defaults (0..3: default(a, b), several default() calls, also one output named
+        # twice or an output without a project) and the implicit ones (outputs that test() did not take out again)
+        keys = [k for k, _, _ in specs]
+        ne = rng.choice([0, 0, 1, 1, 2, 2, 3])
+        explicit = [rng.choice(keys + keys + ['out/ghost']) for _ in range(ne)]
+        if len(set(explicit)) < len(explicit) and rng.random() < 0.7:
+            explicit = rng.sample(keys, min(ne, len(keys)))
+        fallback = [k for k in keys if rng.random() < 0.8] + (['out/ghost'] if rng.random() < 0.1 else [])
+        if ne == 0 and rng.random() < 0.2:
+            fallback = []
+        flags.add('explicit-defaults=%d' % len(explicit))
+        if explicit and any(explicit[0] in [x for x in deps if x] for _, _, deps in specs):
+            flags.add('dependency-on-first-default')
+        runs.append((specs, explicit, fallback))
     r = rng.random()
     if r < 0.6:
         pre = None
@@ -601,8 +618,14 @@ def real_history(d, pre, runs, fresh=None):
     import types
     import uuid
     from unittest import mock
-    from bfg9000.backends.msbuild import solution as solmod, syntax as msyntax
+    from bfg9000.backends.msbuild import solution as solmod, syntax as msyntax, writer as mswriter
+    import bfg9000.builtins.default as defmod          # registers msbuild_default as a post-rules hook of the writer
     from bfg9000.file_types import Phony
+
+    def output(k):
+        ph = Phony(k)
+        ph.creator = True
+        return ph
     env = types.SimpleNamespace(getvar=lambda k, dflt=None: dflt, srcdir=None)
     path = os.path.join(d, '.bfg_uuid')
     slnpath = os.path.join(d, 'project.sln')
@@ -617,7 +640,7 @@ def real_history(d, pre, runs, fresh=None):
         return uuid.UUID(int=fresh[calls[0] - 1]) if fresh is not None else real_uuid4()
     out = []
     with mock.patch.object(solmod.uuid, 'uuid4', fake_uuid4):
-        for specs, default in runs:
+        for specs, explicit, fallback in runs:
             try:
                 uuids = solmod.UuidMap(path)
                 s = solmod.Solution(uuids)
@@ -625,8 +648,12 @@ def real_history(d, pre, runs, fresh=None):
                     dobjs = [_Dep(None if k is None else _Creator(Phony(k))) for k in deps]
                     proj = msyntax.NoopProject(env, name=name, dependencies=s.dependencies(dobjs))
                     s[Phony(key)] = proj
-                if default is not None:
-                    s.set_default(Phony(default))
+                defaults = defmod.DefaultOutputs()
+                for k in fallback:
+                    defaults.add(output(k), explicit=False)
+                for k in explicit:
+                    defaults.add(output(k), explicit=True)
+                mswriter.post_rules_hook.run({'defaults': defaults}, s, env)
                 with open(slnpath, 'w') as f:
                     s.write(f)
                 uuids.save()
@@ -657,7 +684,7 @@ def dec_hist(raw):
 def check_history_property(runs, results):
     """The property on what the real code produced. Returns (failure text, classes) or None."""
     last = {}
-    for i, ((specs, default), (res, fa, _)) in enumerate(zip(runs, results)):
+    for i, ((specs, explicit, fallback), (res, fa, _)) in enumerate(zip(runs, results)):
         if res[0] != 'ok':
             continue
         _, su, projs = res
@@ -673,6 +700,17 @@ def check_history_property(runs, results):
                     if dg not in guids:
                         return ('run %d: project %r depends on GUID %x, which is no project of the solution' % (i, n, dg),
                                 ('dangling-dependency',))
+        if not dup_keys:
+            # every step has exactly one Project entry, whatever the defaults are
+            if sorted(names) != sorted(nm for _, nm, _ in specs):
+                return ('run %d: the steps are %r, the solution lists the projects %r (explicit defaults %r, implicit %r)' % (
+                    i, [nm for _, nm, _ in specs], names, explicit, fallback), ('project-entries',))
+            # the default project comes first: the first explicit default, else the last implicit one
+            first = explicit[0] if explicit else (fallback[-1] if fallback else None)
+            want = [nm for k, nm, _ in specs if k == first]
+            if want and names[:1] != want:
+                return ('run %d: the default project %r (explicit defaults %r, implicit %r) is not the first project of the '
+                        'solution: %r' % (i, want[0], explicit, fallback, names), ('default-not-first',))
         created = set(nm for _, nm, _ in specs)       # also projects replaced under a duplicate key were looked up
         if fa is None or set(k for k, _ in fa[1]) != created | {''}:
             return ('run %d: .bfg_uuid holds %r, projects are %r' % (i, fa, sorted(created)), ('uuid-file-keys',))
@@ -706,7 +744,7 @@ def stage_uuid(rep, rng, n_hist):
             if patched:
                 calls.append(('uuid.hist', [fresh, None if pre is None else [[pre[0], [[k, v] for k, v in pre[1]]]],
                                             [[[[k, nm, [None if x is None else [x] for x in deps]] for k, nm, deps in specs],
-                                              None if default is None else [default]] for specs, default in runs]]))
+                                              list(explicit), list(fallback)] for specs, explicit, fallback in runs]]))
                 impl.append(results)
             fail = check_history_property(runs, results)
             if fail:
@@ -733,8 +771,16 @@ class _WStep:
 _handlers_registered = []
 
 
+def _wout(name):
+    from bfg9000.file_types import Phony
+    ph = Phony(name)
+    ph.creator = True
+    return ph
+
+
 def _register_handlers():
     from bfg9000.backends.msbuild import writer
+    import bfg9000.builtins.default          # noqa: registers msbuild_default, the writer's post-rules hook
     if _handlers_registered:
         return writer
 
@@ -742,17 +788,21 @@ def _register_handlers():
     def _h(rule, build_inputs, solution, env):
         if rule.broken:
             raise NotImplementedError('msbuild backend does not support %r' % rule.name)
-        solution[rule.name] = writer.NoopProject(env, name=rule.name, dependencies=[solution[d] for d in rule.deps])
+        solution[_wout(rule.name)] = writer.NoopProject(env, name=rule.name,
+                                                        dependencies=[solution[_wout(d)] for d in rule.deps])
     _handlers_registered.append(True)
     return writer
 
 
 def stage_writer_histories(rep, rng, n_hist):
     """Direct property check on bfg9000.backends.msbuild.writer.write itself: histories of configure/regenerate runs
-    (projects added, kept, removed, re-added; runs that FAIL part-way because the script temporarily contains a step the
-    backend cannot represent) in a real build directory; GUIDs read back from the written .sln."""
+    (projects added, kept, removed, re-added; 0..3 explicit defaults per run, steps depending on them; runs that FAIL
+    part-way because the script temporarily contains a step the backend cannot represent) in a real build directory; the
+    default project is chosen by the writer's real post-rules hook (builtins/default.py); GUIDs, Project entries and their
+    order read back from the written .sln."""
     import re as _re
     from bfg9000.path import Path, Root
+    from bfg9000.builtins.default import DefaultOutputs
     writer = _register_handlers()
     bad = 0
     proj_re = _re.compile(r'^Project\("(\{[^}]+\})"\) = "([^"]*)", "([^"]*)", "(\{[^}]+\})"$')
@@ -775,14 +825,20 @@ def stage_writer_histories(rep, rng, n_hist):
                 name = 'sol'
 
             class BI:
-                def __init__(self, steps):
+                def __init__(self, steps, explicit):
                     self.steps = steps
+                    self.defaults = DefaultOutputs()
+                    for st in steps:
+                        if not st.broken:
+                            self.defaults.add(_wout(st.name), explicit=False)
+                    for n in explicit:
+                        self.defaults.add(_wout(n), explicit=True)
 
                 def edges(self):
                     return list(self.steps)
 
                 def __getitem__(self, k):
-                    return PI
+                    return {'project': PI, 'defaults': self.defaults}[k]
             os.makedirs(os.path.join(d, 'build'))
             pool = ['lib', 'util', 'app', 'tests', 'tool', 'gen']
             present = set(rng.sample(pool, rng.randint(2, 4)))
@@ -800,18 +856,29 @@ def stage_writer_histories(rep, rng, n_hist):
                 for i, n in enumerate(order):
                     deps = [x for x in order[:i] if rng.random() < 0.4]
                     steps.append(_WStep(n, deps))
+                # explicit defaults: none, one, default(a, b), default(a, b, c) / several default() calls; the numbers are
+                # dealt out in turn so that every history has runs with 0, 1, 2 and 3 of them
+                explicit = rng.sample(order, min(len(order), (h + run_i) % 4))
+                if explicit and len(order) > 1 and rng.random() < 0.5:
+                    # some later step depends on the first default
+                    later = [st for st in steps if st.name != explicit[0] and explicit[0] not in st.deps
+                             and order.index(st.name) > order.index(explicit[0])]
+                    if later:
+                        rng.choice(later).deps.append(explicit[0])
+                rep.count('wh:explicit-defaults=%d' % len(explicit))
                 fail_at = rng.randrange(len(steps) + 1) if rng.random() < 0.3 else None
                 if fail_at is not None:
                     steps.insert(fail_at, _WStep('unsupported', broken=True))
                 ok = True
                 try:
                     os.chdir(os.path.join(d, 'build'))
-                    writer.write(Env(), BI(steps))
+                    writer.write(Env(), BI(steps, explicit))
                 except NotImplementedError:
                     ok = False
                 finally:
                     os.chdir(common.VERIF)
-                trace.append({'projects': order, 'fails_before_index': fail_at, 'ok': ok})
+                trace.append({'projects': order, 'deps': {st.name: list(st.deps) for st in steps if st.deps},
+                              'explicit_defaults': explicit, 'fails_before_index': fail_at, 'ok': ok})
                 alive &= set(order)
                 if not ok:
                     continue
@@ -827,8 +894,17 @@ def stage_writer_histories(rep, rng, n_hist):
                     elif cur is not None and dep_re.match(line):
                         deps[cur].append(dep_re.match(line).group(1))
                 msg = None
-                if sorted(guids) != sorted(order):
-                    msg = 'solution lists projects %r, the script has %r' % (sorted(guids), sorted(order))
+                nproj = sum(1 for line in open(os.path.join(d, 'build', 'sol.sln')).read().splitlines() if proj_re.match(line))
+                first = explicit[0] if explicit else order[-1]
+                if sorted(guids) != sorted(order) or nproj != len(order):
+                    msg = 'solution lists projects %r (%d Project entries), the script has %r (explicit defaults %r)' % (
+                        sorted(guids), nproj, sorted(order), explicit)
+                elif list(guids)[0] != first:
+                    msg = 'the default project %r (explicit defaults %r) is not the first project of the solution: %r' % (
+                        first, explicit, list(guids))
+                elif any(not os.path.isfile(os.path.join(d, 'build', n, n + '.proj')) for n in order):
+                    msg = 'a project of the solution has no .proj file'
+
                 elif len(set(guids.values())) != len(guids):
                     msg = 'GUIDs are not unique: %r' % guids
                 elif any(g not in guids.values() for n in deps for g in deps[n]):
@@ -847,6 +923,149 @@ def stage_writer_histories(rep, rng, n_hist):
         finally:
             shutil.rmtree(d, ignore_errors=True)
     rep.stage('oracle:msbuild.writer histories', histories=n_hist, failures=bad)
+    return bad
+
+
+# ----------------------------------------------------------------------------- real configure with --backend=msbuild
+MSBUILD_STUB = os.path.join(common.VERIF, 'harness', 'stubs_msbuild', 'msbuild')
+SYS_NAMES = ['lib', 'util', 'app', 'tools/gen', 'docs', 'sub/dir/pack', 'check all']
+
+
+def sys_script(steps, default_calls):
+    """steps: [(name, kind, [dependency names])], kind 'command' | 'alias'; default_calls: [[names]] = one default() call each"""
+    L = ["project('sol', '1.0')"]
+    var = {}
+    for i, (name, kind, deps) in enumerate(steps):
+        var[name] = 's%d' % i
+        dl = '[' + ', '.join(var[x] for x in deps) + ']'
+        if kind == 'alias':
+            L.append("s%d = alias(%r, %s)" % (i, name, dl))
+        else:
+            L.append("s%d = command(%r, cmd=['echo', %r], extra_deps=%s)" % (i, name, name, dl))
+    for call in default_calls:
+        L.append('default(' + ', '.join(var[x] for x in call) + ')')
+    return '\n'.join(L) + '\n'
+
+
+def gen_sys_history(rng, h):
+    """A configure followed by regenerations of edited scripts.  The number of explicit defaults of a run is dealt out in
+    turn over 0..3 (given to one default() call or to one call each), later steps depend on the first default."""
+    runs = []
+    names = rng.sample(SYS_NAMES, rng.randint(3, 5))
+    for run_i in range(3):
+        if run_i:
+            r = rng.random()
+            if r < 0.4 and len(names) > 3:
+                victim = rng.choice(names)
+                names = [x for x in names if x != victim]
+            elif r < 0.8:
+                extra = [x for x in SYS_NAMES if x not in names]
+                if extra:
+                    names = names + [rng.choice(extra)]
+        order = [x for x in SYS_NAMES if x in names] if rng.random() < 0.5 else list(names)
+        ne = min(len(order), (h + run_i) % 4)
+        explicit = rng.sample(order, ne)
+        steps = []
+        for i, name in enumerate(order):
+            deps = [x for x in order[:i] if rng.random() < 0.35]
+            if explicit and explicit[0] in order[:i] and explicit[0] not in deps and rng.random() < 0.6:
+                deps.append(explicit[0])
+            steps.append((name, 'alias' if deps and rng.random() < 0.25 else 'command', deps))
+        if ne >= 2 and rng.random() < 0.5:
+            calls = [[x] for x in explicit]
+        elif ne == 3 and rng.random() < 0.5:
+            calls = [explicit[:1], explicit[1:]]
+        else:
+            calls = [explicit] if explicit else []
+        runs.append({'steps': steps, 'default_calls': calls})
+    return runs
+
+
+def sys_history(runs):
+    """Configure run 0 with the real `bfg9000 configure-into --backend=msbuild`, then `bfg9000 regenerate` after each script
+    edit.  Returns (failure text or None, observations)."""
+    from . import project
+    d = common.scratch('c20sys')
+    obs = []
+    try:
+        src, build = os.path.join(d, 'src'), os.path.join(d, 'build')
+        os.makedirs(src)
+        last = {}
+        for i, run in enumerate(runs):
+            steps = [(n, k, list(dp)) for n, k, dp in run['steps']]
+            explicit = [x for call in run['default_calls'] for x in call]
+            project.write_tree(src, {'build.bfg': sys_script(steps, run['default_calls'])})
+            if i == 0:
+                rc, out = project.configure(src, build, backend='msbuild', extra_env={'MSBUILD': MSBUILD_STUB})
+            else:
+                rc, out = project.run_bfg(['regenerate', build], cwd=build, extra_env={'MSBUILD': MSBUILD_STUB})
+            if rc != 0:
+                return 'run %d: bfg9000 exits %d: %s' % (i, rc, out[-400:]), obs
+            text = open(os.path.join(build, 'sol.sln')).read()
+            su, projs = parse_sln(text)
+            entries = [(m.group(2), m.group(3)) for m in map(SLN_PROJECT.match, text.split('\n')) if m]
+            obs.append({'projects': [(n, '%032x' % g, ['%032x' % x for x in dg]) for n, g, dg in projs]})
+            names = [n for n, _, _ in projs]
+            want = [n for n, _, _ in steps]
+            if sorted(names) != sorted(want):
+                return ('run %d: the script declares the steps %r (explicit defaults %r), the solution has Project entries for %r'
+                        % (i, want, explicit, names)), obs
+            guid = {n: g for n, g, _ in projs}
+            if len(set(guid.values()) | {su}) != len(projs) + 1:
+                return 'run %d: GUIDs are not unique: %r' % (i, obs[-1]), obs
+            for n, g, dg in projs:
+                decl = sorted(guid[x] for x in [dp for nm, _, dp in steps if nm == n][0])
+                if sorted(dg) != decl:
+                    return ('run %d: project %r lists the dependency GUIDs %r, its declared dependencies %r have %r'
+                            % (i, n, ['%032x' % x for x in sorted(dg)], [dp for nm, _, dp in steps if nm == n][0],
+                               ['%032x' % x for x in decl])), obs
+            for n, rel in entries:
+                if not os.path.isfile(os.path.join(build, rel)):
+                    return 'run %d: project file %r of project %r was not written' % (i, rel, n), obs
+            # command() / alias() steps are never implicit defaults (only link steps are), so only an explicit default moves
+            first = explicit[0] if explicit else names[0]
+            if names[0] != first:
+                return ('run %d: the default project %r (explicit defaults %r) is not the first project of the solution: %r'
+                        % (i, first, explicit, names)), obs
+            for n, g in guid.items():
+                gs = '{%s}' % str(__import__('uuid').UUID(int=g)).upper()
+                if text.count(gs + '.Default|Win32.ActiveCfg') != 1 or text.count(gs + '.Default|Win32.Build.0') != 1:
+                    return 'run %d: project %r is not listed once in ProjectConfigurationPlatforms' % (i, n), obs
+                if n in last and last[n] != g:
+                    return ('run %d: the GUID of %r changed from %032x to %032x although the project existed in the previous run'
+                            % (i, n, last[n], g)), obs
+            last = guid
+        return None, obs
+    finally:
+        shutil.rmtree(d, ignore_errors=True)
+
+
+def stage_sln_system(rep, rng, n_hist):
+    """The whole path: real build scripts (command / alias steps with dependencies, 0..3 explicit defaults given to one or to
+    several default() calls) configured with the real `bfg9000 configure-into --backend=msbuild` (a stand-in `msbuild` that
+    only answers /version is named by MSBUILD) and regenerated after edits; the written .sln is read back: one Project entry
+    and one .proj file per step, the dependency GUIDs are exactly those of the declared dependencies, the first explicit
+    default comes first, GUIDs are unique and stable."""
+    import concurrent.futures
+    hists = [gen_sys_history(rng, h) for h in range(n_hist)]
+    bad = 0
+    with concurrent.futures.ThreadPoolExecutor(max_workers=8) as ex:
+        outs = list(ex.map(sys_history, hists))
+    for h, (runs, (fail, obs)) in enumerate(zip(hists, outs)):
+        for i, run in enumerate(runs):
+            ne = sum(len(c) for c in run['default_calls'])
+            rep.count('sys:explicit-defaults=%d' % ne)
+            rep.count('sys:default-calls=%d' % len(run['default_calls']))
+            rep.case('sys:%r' % (run,), i < len(obs))
+        if h < 1:
+            rep.sample({'stage': 'sln_system', 'script': sys_script(runs[0]['steps'], runs[0]['default_calls']), 'observed': obs[:1]})
+        if fail:
+            bad += 1
+            k = int(re.match(r'run (\d+)', fail).group(1))
+            rep.fail('msbuild backend, real configure: ' + fail,
+                     {'sys_history': runs, 'observed': obs, 'failing_run': k,
+                      'script_of_failing_run': sys_script(runs[k]['steps'], runs[k]['default_calls'])}, classes=())
+    rep.stage('oracle:msbuild configure/regenerate', histories=n_hist, failures=bad)
     return bad
 
 
@@ -874,6 +1093,7 @@ def run(rep):
     nh = 400 if thorough else 60
     udis, ubad = stage_uuid(rep, rng, nh)
     ubad += stage_writer_histories(rep, rng, 150 if thorough else 25)
+    ubad += stage_sln_system(rep, rng, 40 if thorough else 8)
     if udis and not ubad:
         _, ubad = stage_uuid(rep, rng, nh * 10)       # search with a 10x budget for a failing history
         if not ubad:
@@ -887,10 +1107,12 @@ def run(rep):
 def replay(rep, path):
     r = json.load(open(path))
     print(json.dumps(r, indent=1)[:2000])
+    if isinstance(r.get('history'), list):
+        return run(rep)          # a writer history (random driver state): the whole check is the replay
     if 'history' in r:
         h = r['history']
         pre = None if h['pre'] is None else (h['pre'][0], [tuple(x) for x in h['pre'][1]])
-        runs = [([tuple(s) for s in specs], default) for specs, default in h['runs']]
+        runs = [([tuple(s) for s in specs], explicit, fallback) for specs, explicit, fallback in h['runs']]
         d = common.scratch('c20replay')
         try:
             results = real_history(d, pre, runs, h.get('fresh'))
@@ -900,6 +1122,13 @@ def replay(rep, path):
         if fail:
             rep.fail('MSBuild solution history violates the property: ' + fail[0],
                      {'history': h, 'results': results}, classes=fail[1])
+        else:
+            print('replayed history no longer fails')
+        return
+    if 'sys_history' in r:
+        fail, obs = sys_history(r['sys_history'])
+        if fail:
+            rep.fail('msbuild backend, real configure: ' + fail, {'sys_history': r['sys_history'], 'observed': obs}, classes=())
         else:
             print('replayed history no longer fails')
         return
